@@ -18,7 +18,7 @@ pkgdir = {'quickfix': '.', 'file': 'store/file', 'sql': 'store/sql', 'internal':
 demo_dst = os.path.join(repo, pkgdir, 'zz_seed_demo_test.go')
 shutil.copy(src + '/demo_test.go', demo_dst)
 def run_demo():
-    p = subprocess.run(['go', 'test', '-vet=off', '-count=1', '-timeout', '180s', '-run', 'Seed|seed|Demo', './' + pkgdir],
+    p = subprocess.run(['go', 'test', '-tags', 'verif', '-vet=off', '-count=1', '-timeout', '180s', '-run', 'Seed|seed|Demo', './' + pkgdir],
                        cwd=repo, env=env, capture_output=True, text=True)
     return p.returncode, (p.stdout + p.stderr)[-1500:]
 meta = {'seed': sid, 'property': pid, 'source': 'independent sub-agent given only the property text and a scratch worktree'}
